@@ -346,7 +346,7 @@ pub fn run(tier: Tier) -> i32 {
     for (i, c) in configs(tier).iter().enumerate() {
         ck.explore::<In>("inbound", i, c, &ecfg);
     }
-    ck.rule = "v3 server (default in-flight middleware), v5 server (Receive Maximum + size middleware), v5 client (receive maximum): max_receive in {1,2} (quick) / {0,1,2,3,4} (thorough) x max_receive_size in {0, 30 bytes, 64 KiB}; bursts of up to 3 (quick) / 4 (thorough) publishes over {q1 5 B, q1 14 B, q0 5 B, q1 12 B split in two writes, q2 26 B, with the 30-byte limit also a 40 B split publish and one of exactly 30 packet bytes} against gated handlers, deliveries and completions in every order with <= 1 injection while runnable; invariants after every step: executing handlers <= max_receive, their packet bytes <= max_receive_size + largest packet; v5: a peer within Receive Maximum is never answered 0x93, also while SUBSCRIBE / UNSUBSCRIBE requests are being handled (gated protocol service); at every quiescent point (servers, no publish delivered in pieces): a delivered publish is being handled whenever fewer handlers than max_receive and strictly fewer bytes than max_receive_size are executing; drain: all gates opened => every complete publish handled with its full payload".into();
+    ck.rule = "v3 server (default in-flight middleware), v5 server (Receive Maximum + size middleware), v5 client (receive maximum): max_receive in {1,2} (quick) / {0,1,2,3,4} (thorough) x max_receive_size in {0, 30 bytes, 64 KiB}; bursts of up to 3 (quick) / 4 (thorough) publishes over {q1 5 B, q1 14 B, q0 5 B, q1 12 B split in two writes, q2 26 B, with the 30-byte limit also a 40 B split publish and one of exactly 30 packet bytes} against gated handlers, deliveries and completions in every order with <= 1 injection while runnable; invariants after every step: executing handlers <= max_receive, their packet bytes <= max_receive_size + largest packet; v5: a peer within Receive Maximum is never answered 0x93, also while SUBSCRIBE / UNSUBSCRIBE requests are being handled (gated protocol service); at every quiescent point (servers, no publish delivered in pieces): a delivered publish is being handled whenever fewer handlers than max_receive and strictly fewer bytes than max_receive_size are executing; drain: all gates opened => every complete publish handled with its full payload; v5 server also with an application-chosen Receive Maximum in the handshake acknowledgement that differs from the server-wide one (the advertised value is the limit); Receive-Maximum-1 configurations also complete their QoS 2 exchanges (PUBREL of the oldest id that has its PUBREC) and receive a 16-byte publish in three writes (two chunks behind the announced part)".into();
     ck.assumptions = vec!["FIFO task order of ntex-rt; nondeterminism = timing of environment events (DESIGN 2.4)".into()];
     ck.finish()
 }
